@@ -852,3 +852,64 @@ func genHTTPClientOp(s *Sim, c *Client) (Decision, bool) {
 	m = strings.NewReplacer(`\t`, "\t", `\n`, "\n", `\r`, "\r", `\x00`, "\x00", `\x01`, "\x01", `\x7f`, "\x7f", `\u00e9`, "\u00e9", `\u00e4`, "\u00e4").Replace(m)
 	return cliReq(c, m, ""), true
 }
+
+// judgeUpgrades is C17.d for WebSocket upgrades: with an allow-list, a dial
+// bearing an Origin header (other than null) is upgraded only if the origin is
+// listed (ignoring ASCII case); otherwise it is refused with 403 and no
+// service request - not even the header authentication - is made for it.
+func (s *Sim) judgeUpgrades() {
+	if s.Cfg.Profile != "http" || s.gwStopped {
+		return
+	}
+	gw := s.Cfg.Gw
+	for _, c := range s.Clients {
+		c.mu.Lock()
+		st := c.State
+		c.mu.Unlock()
+		if c.upgradeJudged || st == "new" || st == "connecting" || c.Origin == "" {
+			continue
+		}
+		c.upgradeJudged = true
+		s.stat("oracle.C17.d", 1)
+		allowed := refOriginAllowed(gw.AllowOrigin, []string{c.Origin})
+		switch {
+		case !allowed && st != "refused":
+			s.violate("C17", "d", "upgrade-not-refused", "a WebSocket upgrade with Origin %q (allow-list %q) was accepted", c.Origin, *gw.AllowOrigin)
+		case !allowed && c.UpgradeStatus != 403:
+			s.violate("C17", "d", "upgrade-refusal-status", "a WebSocket upgrade with Origin %q (allow-list %q) was refused with status %d, not 403", c.Origin, *gw.AllowOrigin, c.UpgradeStatus)
+		case allowed && st == "refused" && c.UpgradeStatus == 403:
+			s.violate("C17", "d", "allowed-upgrade-refused", "a WebSocket upgrade with Origin %q, which the allow-list contains (ignoring ASCII case), was refused", c.Origin)
+		}
+		if !allowed {
+			// no request may have been made for it: judged when nothing else was
+			// going on between the dial and its end
+			s.mu.Lock()
+			var hit *Req
+			busy := false
+			for _, r := range s.tr.reqs {
+				if r.Step >= c.ConnectStep {
+					if r.Type == "auth" && gw.WSHeaderAuth != nil && strings.HasPrefix(r.Subj, "auth."+*gw.WSHeaderAuth) {
+						hit = r
+					}
+				} else if !r.Delivered {
+					busy = true
+				}
+			}
+			s.mu.Unlock()
+			others := 0
+			for _, o := range s.Clients {
+				if o != c && o.ConnectStep >= c.ConnectStep {
+					others++
+				}
+			}
+			for _, h := range s.HTTP {
+				if h.Step >= c.ConnectStep {
+					others++
+				}
+			}
+			if hit != nil && !busy && others == 0 {
+				s.violate("C17", "d", "request-for-refused-origin", "a WebSocket upgrade with Origin %q (allow-list %q): the header authentication request %s was made although the origin is refused", c.Origin, *gw.AllowOrigin, hit.ID)
+			}
+		}
+	}
+}
